@@ -77,21 +77,28 @@ def explore(res, rng, n):
             tabs[j][cur[j]] = rng.choice([1, 2, 4, 8])
         lim = rng.choice([2, 4, 9])
         dom = lambda c, nx, lim=lim: bool(np.sum(np.abs(nx)) <= lim)
-        cand = [v + rng.choice([-1, 1, 2, 0]) for v in cur]
+        cand = list(cur)
         props = [(lambda c, j=j: float(cand[j])) for j in range(d)]
-        uds = [rng.choice([2, 4, 8]) for _ in range(d)]
-        uns = [rng.randrange(ud + 1) for ud in uds]
-        it = iter([un / ud for un, ud in zip(uns, uds)])
         s = rpm.AuModifiedMHSampler(initialVal=list(map(float, cur)), targetPdf=fs, proposalCSampler=props, sampleDomain=dom)
-        with mock.patch.object(np.random, 'uniform', side_effect=lambda *a, **k: next(it)):
-            out = s.getSample()
-        res.evaluations += 1
-        fcur = [int(fs[j](cur[j])) for j in range(d)]
-        fcand = [int(fs[j](cand[j])) for j in range(d)]
-        res.nontrivial.add(('au', tuple(cur), tuple(cand), tuple(uns), tuple(uds)))
-        case = {'cur': cur, 'cand': cand, 'u': list(zip(uns, uds)), 'fcur': fcur, 'fcand': fcand, 'limit': lim}
-        reqs.append('auflags ' + ','.join(map(str, fcur)) + ' ' + ','.join(map(str, fcand)) + ' ' + ','.join(map(str, uns)) + ' ' + ','.join(map(str, uds)))
-        meta.append(('au', case, [int(v) for v in out]))
+        # a chain of steps on ONE sampler object (scratch buffers persist between steps)
+        for step in range(rng.choice([1, 2, 4, 6])):
+            cand[:] = [v + rng.choice([-1, 1, 2, 0, 3]) for v in cur]
+            uds = [rng.choice([2, 4, 8]) for _ in range(d)]
+            uns = [rng.choice([0, ud, rng.randrange(ud + 1), rng.randrange(ud + 1)]) for ud in uds]
+            it = iter([un / ud for un, ud in zip(uns, uds)])
+            fcur = [int(fs[j](cur[j])) for j in range(d)]
+            fcand = [int(fs[j](cand[j])) for j in range(d)]
+            if any(v == 0 for v in fcur):
+                break
+            with mock.patch.object(np.random, 'uniform', side_effect=lambda *a, **k: next(it)):
+                out = s.getSample()
+            res.evaluations += 1
+            res.nontrivial.add(('au', tuple(cur), tuple(cand), tuple(uns), tuple(uds)))
+            res.stat('au_step_%d' % min(step, 3))
+            case = {'cur': list(cur), 'cand': list(cand), 'u': list(zip(uns, uds)), 'fcur': fcur, 'fcand': fcand, 'limit': lim, 'step': step}
+            reqs.append('auflags ' + ','.join(map(str, fcur)) + ' ' + ','.join(map(str, fcand)) + ' ' + ','.join(map(str, uns)) + ' ' + ','.join(map(str, uds)))
+            meta.append(('au', case, [int(v) for v in out]))
+            cur = [int(v) for v in out]
         if i < 3:
             res.samples.append(case)
     for (kind, case, new), a in zip(meta, core.driver_batch(reqs)):
@@ -112,21 +119,24 @@ def explore(res, rng, n):
             if new != want:
                 fail(res, 'component-wise step differs from the rule (per-coordinate accept, one domain test on the assembled candidate)',
                      'AuModifiedMHSampler.getSample', case, {'impl': new, 'rule': want})
-    # ---- negative densities are rejected with an error
-    for cls, kw in [(rpm.MetropolisHastingsSampler, dict(initialVal=[0.0], targetPdf=lambda x: -1.0, proposalCSampler=lambda c: c + 1)),
-                    (rpm.AuModifiedMHSampler, dict(initialVal=[0.0], targetPdf=[lambda x: -1.0], proposalCSampler=[lambda c: c + 1]))]:
-        try:
-            cls(**kw).getSample()
-            fail(res, 'negative density accepted', cls.__name__, {}, None)
-        except ValueError:
-            res.stat('negative_density_rejected')
-        res.evaluations += 1
+    # ---- negative densities are rejected with an error: at the current point, at the candidate, at both
+    for where in ('both', 'current', 'candidate'):
+        neg = (lambda x, where=where: -1.0 if (where == 'both' or (where == 'current') == (float(np.atleast_1d(x)[0]) < 0.5)) else 2.0)
+        for cls, kw in [(rpm.MetropolisHastingsSampler, dict(initialVal=[0.0], targetPdf=neg, proposalCSampler=lambda c: np.asarray(c) + 1.0)),
+                        (rpm.AuModifiedMHSampler, dict(initialVal=[0.0, 0.0], targetPdf=[lambda x: 1.0, neg],
+                                                       proposalCSampler=[lambda c: c + 1.0, lambda c: c + 1.0]))]:
+            res.evaluations += 1
+            try:
+                out = cls(**kw).getSample()
+                fail(res, 'negative density accepted (negative at: %s)' % where, cls.__name__ + '.getSample', {'negative_at': where}, repr(out))
+            except ValueError:
+                res.stat('negative_density_rejected_' + where)
 
 
 def run(tier, seed):
     res = core.Result(PID, tier, seed)
     res.rule = ('scripted proposals and uniform draws (k/2^m incl. 0 and 1) on integer lattices with integer-valued target tables (exact '
-                'ratios, zero-density states), box / L1 domains, 1-4 dimensions, chains of 1-6 steps; distinct by (state, candidate, draw, densities)')
+                'ratios, zero-density states), box / L1 domains, 1-4 dimensions, chains of 1-6 steps on one sampler object for both samplers; densities negative at the current point / candidate / both; distinct by (state, candidate, draw, densities)')
     core.prove(res, PID, MODULES, clean=(tier == 'thorough'))
     n = 400 if tier == 'quick' else 20000
     explore(res, random.Random(seed), n)
